@@ -17,7 +17,7 @@ from .. import engine, sched, refcsv
 
 PROP = 'C16'
 LEVEL = 'exploration'
-RULE = ('Histories: a pool of 70 scenarios (sharing their table objects) (every query kind of C01-C05, LIKE with many patterns, aggregates, UNNEST, DISTINCT [COUNT], joins, UPDATE, parse errors, runtime '
+RULE = ('Histories: a pool of 76 scenarios (sharing their table objects) (every query kind of C01-C05, LIKE with many patterns, aggregates, UNNEST, DISTINCT [COUNT], joins, UPDATE, parse errors, runtime '
         'errors at record k, IO errors, query_csv, pandas); every ordered pair (quick) and every ordered triple (thorough) run in one interpreter, plus Hypothesis '
         'rule-based state machines over sequences of <= 6 (quick) / <= 12 (thorough) scenarios; invariant after every step: the result (output, header, warnings, error) '
         'equals the result of the same scenario run alone in a FRESH interpreter (one sub-process per scenario). Consecutive rbql-js queries: every ordered pair and a sample of triples (thorough: all) of a 29-scenario JS pool in one node process, each step compared with the scenario run in a fresh node process. Interleavings: two queries of different kinds run in two '
@@ -63,6 +63,10 @@ POOL = [
     S('agg-numbers-int', 'select MEDIAN(a1), MIN(a1), MAX(a1), SUM(a1), AVG(a1)', A=[[3], [1], [2], [10]]), S('agg-numbers-float', 'select MEDIAN(a1), MIN(a1), MAX(a1), SUM(a1), AVG(a1)', A=[[1.5], [2.25], [0.5]]),
     S('agg-strings-int', 'select MEDIAN(a1), MIN(a1), MAX(a1), SUM(a1), AVG(a1)', A=[['10'], ['9'], ['100']]), S('agg-strings-float', 'select MEDIAN(a1), MIN(a1), MAX(a1), SUM(a1), AVG(a1)', A=[['1.5'], ['10'], ['9'], ['2']]),
     S('agg-strings-grouped', 'select a2, MEDIAN(a1), MAX(a1), SUM(a1) group by a2', A=[['10', 'x'], ['9', 'x'], ['100', 'x'], ['7', 'y']]),
+    # the same select-list text under different query heads (anything cached per select text must not be altered by one of them)
+    S('same-select-plain', 'select a.k, a["tags"] as t', a_names=NAMES), S('same-select-distinct-count', 'select distinct count a.k, a["tags"] as t', a_names=NAMES),
+    S('same-select-distinct', 'select distinct a.k, a["tags"] as t', a_names=NAMES), S('same-select-top', 'select top 2 a.k, a["tags"] as t order by a.n', a_names=NAMES),
+    S('same-select-agg-alias', 'select a.k, count(*) as cnt group by a.k', a_names=NAMES), S('same-select-agg-alias-distinct-count', 'select distinct count a.k, NR % 2 as cnt', a_names=NAMES),
     # every writer / clause kind failing midway (state accumulated before the failure must not survive the query)
     S('fails-midway-distinct-count', 'select distinct count a1, 1 / (10 - int(a2))'), S('fails-midway-distinct', 'select distinct a1, 1 / (4 - NR)'), S('fails-midway-agg', 'select a1, sum(1 / (3 - NR)), count(*) group by a1'),
     S('fails-midway-join', 'select a1, b2, 1 / (3 - NR) join b on a1 == b1', B=T2), S('fails-midway-update', "update a2 = 1 / (4 - NR), a1 = 'W'"), S('fails-midway-unnest', "select a1, UNNEST([1 / (3 - NR), 2])"),
@@ -170,7 +174,7 @@ def shard_histories(shard, nshards, tier, seed, scratch):
                     check_history([i, j], fresh, scratch, stats)
         # every ordered triple (thorough) / a deterministic sample of them (quick)
         cnt = 0
-        step = 1 if tier == 'thorough' else 67
+        step = 1 if tier == 'thorough' else max(1, n ** 3 // 3500) | 1     # about 3500 sampled triples (an odd stride visits all residues)
         for t in itertools.product(range(n), repeat=3):
             cnt += 1
             if cnt % step == 0 and (cnt // step) % nshards == shard:
